@@ -309,11 +309,19 @@ CLAIMS = {
          "lexer::lex on every input and (b) buildTree fed the REAL event list and tokens must equal the real green tree and diagnostic ranges; "
          "every real event list is checked to satisfy the theorem's hypotheses. Direct oracles on the implementation for every input: tiling, "
          "char boundaries, tree text == input, leaves == tokens with same-named kinds, node/diagnostic/lowering-diagnostic ranges in the text, "
-         "line:column rendering exact, parse twice identical, no panic, no hang, deep nesting in child processes.",
-    design_ref="§5 C12, §C12 — as built",
+         "line:column rendering exact, parse twice identical, no panic, no hang, deep nesting in child processes. "
+         "Grammar side of the Advance hypothesis, on the model of the parser's fuel machine (Model/ParserFuel.lean, fuel constant regenerated): "
+         "the top-level loop of file() started in ANY well-formed state — e.g. out of fuel after a lookahead-only scan of any length — ends at "
+         "the real end of input with at least one Advance per token, for arbitrary item parsers built from the primitives "
+         "(file_advances_cover_tokens, file_after_lookahead); with a fuel-aware eof() the same hypotheses do not suffice "
+         "(fuel_aware_eof_drops_tokens). A deterministic fuel-limit catalogue sized from the fuel measured on the real parser (lookahead-only "
+         "scans, stacked frames that look while unwinding, consuming loops, followers of an out-of-fuel construct; size windows around F/4, F/3, "
+         "F/2, F) runs under all direct oracles; the list of functions that look ahead by a computed distance is regenerated from the source "
+         "and must be covered by the catalogue.",
+    design_ref="§5 C12, §C12 — as built, §Seeded C12-eof-fuel-impl-path-lookahead",
     note="Only validated, not proved: that logos' generated automaton is 'longest match, then priority' (L1 tie on exhaustive strings <=3 over 34 symbols, "
          "<=4..8 over smaller alphabets, a special-character alphabet (U+FEFF, Cf/Zs/Zl, NUL, NEL, CR, FF) and 27 special prefixes/suffixes/infixes on short texts and corpus files, corpus, mutants, random); that file::file's event list is balanced with enough Advances (checked on every real "
-         "event list, owned by C04); determinism (parse twice). Trusted: Lean kernel, extract.py's regex-subset parser, harness serialisation, "
+         "event list, owned by C04; the item parsers of file.rs are not modelled one by one — StepOK/KeepsCovered are proved for the primitives, dispatch chains and loops); that Parser::eof is the fuel-independent Input::eof (asserted textually by the translator, observed by C04's fuel-ops tie); determinism (parse twice). Trusted: Lean kernel, extract.py's regex-subset parser, harness serialisation, "
          "rowan/logos as observed. Known finding: stack overflow (abort, no tree) at ~10^5 nested '(' or '!'.",
     technique="Lean 4 proof (induction over token loop / event list, Brzozowski-derivative correctness, UTF-8 arithmetic) + table translator + "
               "differential correspondence with lexer::lex and Parser::build_tree + exhaustive small-string search"),
